@@ -1118,7 +1118,9 @@ Definition run_resolve (o : ropts) (we re : env) (w : schema) (R : option schema
   | OutOfFuel => "FUEL"
   end ++ ";" ++ (if inline w && inline r && agree we re w r then "Z1"
                  else if env_scoped we && env_scoped re && scoped we w && scoped re r && agreen ZDEPTH we re w r then "Z2"
-                 else "Z0").
+                 else "Z0" ++ (if env_scoped we then "" else "E") ++ (if env_scoped re then "" else "e")
+                           ++ (if scoped we w then "" else "W") ++ (if scoped re r then "" else "R")
+                           ++ (if agreen ZDEPTH we re w r then "" else "A")).
 
 (* the same on the bytes of an explicit layout of the value (any block partition), followed by [suffix] *)
 Definition run_resolve_layout (o : ropts) (we re : env) (w : schema) (R : option schema) (r : schema) (l : lval) (suffix : bytes)
